@@ -79,6 +79,11 @@ pub fn query(xot: &Xot, vocab: &Vocab, op: &str, node: Node) -> String {
             };
             format!("name={} ref={}", nm, r)
         }
+        "writable" => match xot.to_string(node) {
+            Ok(_) => "t".to_string(),
+            Err(Error::MissingPrefix(_)) => "f".to_string(),
+            Err(e) => format!("e:{:?}", e),
+        },
         _ => unreachable!(),
     });
     match r {
@@ -120,6 +125,11 @@ pub fn run_queries(sink: &mut Sink, t: &GTree, only: Option<&[Vec<usize>]>, ops:
                 sink.stat("resp.panic");
             }
             sink.emit(format!("scope {} {} {}", op, path_str(path), wire), resp);
+        }
+        if ops.len() == QUERY_OPS.len() && matches!(t.at(path).unwrap().v, GValue::Document | GValue::Element(_)) {
+            let resp = query(&xot, &vocab, "writable", *node);
+            sink.stat(&format!("writable.{}", resp.replace(' ', "-")));
+            sink.emit(format!("scope writable {} {}", path_str(path), wire), resp);
         }
         oracle::check_node(sink, &xot, &vocab, t, path, *node);
     }
